@@ -65,7 +65,7 @@ def run(chk):
         return
     flag = list(flag_locals)[0]
     fpath = (("L", flag),)
-    states, results = absint.header_fixpoint(it, h, H0.env, H0.cons)
+    states, results = absint.header_fixpoint(it, h, H0.env, H0.cons, trace=H0.trace)
     nz_base = forms.Normalizer(it).form(base)
 
     table = {}
